@@ -33,6 +33,22 @@ def bv(x):
     return tt._lift(x)
 
 
+RW = 8          # width of layer indices / ranks (values stay far below 2^8)
+KW = 20         # width of lexicographic keys
+
+
+def iv(n, w=RW):
+    return Z.BitVecVal(n, w)
+
+
+def lt(a, b):
+    return Z.ULT(a, b)
+
+
+def gt(a, b):
+    return Z.UGT(a, b)
+
+
 def tab_if(c, a, b):
     return Z.If(zb(c), bv(a), bv(b))
 
@@ -51,7 +67,7 @@ class BaseSpec:
         self.fal = [t_and(a, t_not(b)) for a, b in zip(self.A, self.B)]
         self.mat = [t_or(t_not(a), b) for a, b in zip(self.A, self.B)]
         placed = [Z.BoolVal(False)] * M
-        layer = [Z.IntVal(-1)] * M
+        layer = [iv(255)] * M
         nonempty = []
         for L in range(M):
             know = bv(CTX.FULLI)
@@ -59,7 +75,7 @@ class BaseSpec:
                 know = know & tab_if(placed[j], CTX.FULLI, self.mat[j])
             tol = [Z.And(Z.Not(placed[i]), (know & bv(self.ver[i])) != bv(0)) for i in range(M)]
             nonempty.append(zor(tol))
-            layer = [Z.If(tol[i], Z.IntVal(L), layer[i]) for i in range(M)]
+            layer = [Z.If(tol[i], iv(L), layer[i]) for i in range(M)]
             placed = [Z.Or(placed[i], tol[i]) for i in range(M)]
         self.placed, self.layer = placed, layer
         self.inf = [Z.Not(p) for p in placed]
@@ -69,7 +85,7 @@ class BaseSpec:
             feas = feas & tab_if(placed[i], CTX.FULLI, self.mat[i])
         self.FEAS = feas
         self.weakly_consistent = feas != bv(0)
-        self.nlayers = Z.Sum([Z.If(ne, 1, 0) for ne in nonempty]) if M else Z.IntVal(0)
+        self.nlayers = sum([Z.If(ne, iv(1), iv(0)) for ne in nonempty], iv(0))
         self.falsw = [[zb(t_bit(self.fal[i], w)) for w in range(W)] for i in range(M)]
         self._rank = {}
 
@@ -89,9 +105,9 @@ class BaseSpec:
     def kz(self, w):
         """Z-rank of world w w.r.t. the finite layers (Int term)."""
         if w not in self._rank:
-            r = Z.IntVal(0)
+            r = iv(0)
             for i in range(self.M):
-                r = Z.If(Z.And(self.placed[i], self.falsw[i][w], self.layer[i] + 1 > r), self.layer[i] + 1, r)
+                r = Z.If(Z.And(self.placed[i], self.falsw[i][w], gt(self.layer[i] + 1, r)), self.layer[i] + 1, r)
             self._rank[w] = r
         return self._rank[w]
 
@@ -99,17 +115,17 @@ class BaseSpec:
         return self.M + 5
 
     def formula_rank(self, tab, U):
-        r = Z.IntVal(self.INF())
+        r = iv(self.INF())
         tab = bv(tab) & bv(U)
         for w in range(CTX.W):
-            r = Z.If(Z.And(zb(t_bit(tab, w)), self.kz(w) < r), self.kz(w), r)
+            r = Z.If(Z.And(zb(t_bit(tab, w)), lt(self.kz(w), r)), self.kz(w), r)
         return r
 
     def spec_z(self, QA, QB, weakly=False):
         U = self.universe(weakly)
         fq = bv(t_and(QA, t_not(QB))) & bv(U)
         vq = bv(t_and(QA, QB)) & bv(U)
-        return Z.Or(fq == bv(0), self.formula_rank(vq, CTX.FULLI) < self.formula_rank(fq, CTX.FULLI))
+        return Z.Or(fq == bv(0), lt(self.formula_rank(vq, CTX.FULLI), self.formula_rank(fq, CTX.FULLI)))
 
     # -- System W ------------------------------------------------------------------------
     def less_w(self, w, v):
@@ -118,9 +134,9 @@ class BaseSpec:
         M = self.M
         alts = []
         for L in range(M):
-            eq_above = zand([Z.Implies(Z.And(self.placed[i], self.layer[i] > L), self.falsw[i][w] == self.falsw[i][v]) for i in range(M)])
-            sub = zand([Z.Implies(Z.And(self.placed[i], self.layer[i] == L), Z.Implies(self.falsw[i][w], self.falsw[i][v])) for i in range(M)])
-            strict = zor([Z.And(self.placed[i], self.layer[i] == L, Z.Not(self.falsw[i][w]), self.falsw[i][v]) for i in range(M)])
+            eq_above = zand([Z.Implies(Z.And(self.placed[i], gt(self.layer[i], iv(L))), self.falsw[i][w] == self.falsw[i][v]) for i in range(M)])
+            sub = zand([Z.Implies(Z.And(self.placed[i], self.layer[i] == iv(L)), Z.Implies(self.falsw[i][w], self.falsw[i][v])) for i in range(M)])
+            strict = zor([Z.And(self.placed[i], self.layer[i] == iv(L), Z.Not(self.falsw[i][w]), self.falsw[i][v]) for i in range(M)])
             alts.append(Z.And(eq_above, sub, strict))
         return zor(alts)
 
@@ -140,11 +156,12 @@ class BaseSpec:
         M = self.M
         terms = []
         for i in range(M):
-            p = Z.IntVal(1)
+            p = iv(1, KW)
             for L in range(1, M):
-                p = Z.If(self.layer[i] == L, Z.IntVal((M + 1) ** L), p)
-            terms.append(Z.If(Z.And(self.placed[i], self.falsw[i][w]), p, Z.IntVal(0)))
-        return Z.Sum(terms) if terms else Z.IntVal(0)
+                p = Z.If(self.layer[i] == iv(L), iv((M + 1) ** L, KW), p)
+            terms.append(Z.If(Z.And(self.placed[i], self.falsw[i][w]), p, iv(0, KW)))
+        assert (M + 1) ** M < 2 ** KW
+        return sum(terms, iv(0, KW))
 
     def spec_lex(self, QA, QB, weakly=False):
         U = self.universe(weakly)
@@ -152,7 +169,7 @@ class BaseSpec:
         vq = bv(t_and(QA, QB)) & bv(U)
         W = CTX.W
         keys = [self.lexkey(w) for w in range(W)]
-        ex = zor([Z.And(zb(t_bit(vq, w)), zand([Z.Implies(zb(t_bit(fq, v)), keys[w] < keys[v]) for v in range(W) if v != w]))
+        ex = zor([Z.And(zb(t_bit(vq, w)), zand([Z.Implies(zb(t_bit(fq, v)), lt(keys[w], keys[v])) for v in range(W) if v != w]))
                   for w in range(W)])
         return Z.Or(fq == bv(0), ex)
 
@@ -179,17 +196,17 @@ class BaseSpec:
     # -- ranking-model semantics (used by the sanity lemmas and by C16/C18) ---------------
     def accepts_rank(self, kappa, a, b, U=None):
         """kappa (list of W Int terms, INF() = infinite) accepts (b|a) within U."""
-        INF = self.INF() + 100
+        INF = 250
         U = bv(CTX.FULLI if U is None else U)
 
         def fr(tab):
-            r = Z.IntVal(INF)
+            r = iv(INF)
             tab = bv(tab) & U
             for w in range(CTX.W):
-                r = Z.If(Z.And(zb(t_bit(tab, w)), kappa[w] < r), kappa[w], r)
+                r = Z.If(Z.And(zb(t_bit(tab, w)), lt(kappa[w], r)), kappa[w], r)
             return r
         v, f = fr(t_and(a, b)), fr(t_and(a, t_not(b)))
-        return v < f
+        return lt(v, f)
 
     # -- c-representations ---------------------------------------------------------------
     def kappa_c(self, eta, w):
